@@ -144,7 +144,7 @@ func init() {
 	core.Register(&core.Prop{
 		ID:    "C03",
 		Level: "exploration",
-		Rule:  "E1: for every corpus schema every single structural mutation at every JSON position (value replaced by each of 12 values, member/element deleted, object<->array swapped, key duplicated with a second value) and every pair of mutations inside file_declaration (reduced value set), plus raw byte strings over {{,},\",:,a,0xFF} to length 6; every accepted mutant is run on the corpus inputs. E2: every registered custom_func x argument count 0..4 x argument kinds {string,int,float,boolean,array,absent}. E3: every corpus schema on every token string up to length L, every single-token deletion/duplication of its inputs, concatenations of two inputs and a 0x00-0xFF byte ramp. Oracle: NewSchema/NewTransform/Read return (no panic), a terminal result within 2*len+8 Reads, no call exceeding the watchdog. Distinct by (family, schema or function shape, input); outcome class = (family, accepted?, number of results); replacement values include integer spellings only a validator accepts (1.0, 1e0, 1e20); every single mutation is also hidden from validation (case-variant section after the intact one; earlier occurrence whose member the later one leaves out); ~330 xpath expressions at every xpath position, in 8 contexts and from the input; odd JavaScript results; adversarial regexes; comparisons used as node-sets inside predicates and function arguments (23 expressions + 7 accepted look-alikes); documents nested 100 ... 1 000 000 levels deep x 4 declarations that walk the tree",
+		Rule:  "E1: for every corpus schema every single structural mutation at every JSON position (value replaced by each of 12 values, member/element deleted, object<->array swapped, key duplicated with a second value) and every pair of mutations inside file_declaration (reduced value set), plus raw byte strings over {{,},\",:,a,0xFF} to length 6; every accepted mutant is run on the corpus inputs. E2: every registered custom_func x argument count 0..4 x argument kinds {string,int,float,boolean,array,absent}. E3: every corpus schema on every token string up to length L, every single-token deletion/duplication of its inputs, concatenations of two inputs and a 0x00-0xFF byte ramp. Oracle: NewSchema/NewTransform/Read return (no panic), a terminal result within 2*len+8 Reads, no call exceeding the watchdog. Distinct by (family, schema or function shape, input); outcome class = (family, accepted?, number of results); replacement values include integer spellings only a validator accepts (1.0, 1e0, 1e20); every single mutation is also hidden from validation (case-variant section after the intact one; earlier occurrence whose member the later one leaves out); ~330 xpath expressions at every xpath position, in 8 contexts and from the input; odd JavaScript results; adversarial regexes; comparisons used as node-sets inside predicates and function arguments (23 expressions + 7 accepted look-alikes); documents nested 100 ... 1 000 000 levels deep x 4 declarations that walk the tree; E3l: 9 csv2 schemas (header/footer record whose footer never comes / comes / no such record, then a rows 1..3 target) x every sequence of up to 5 (thorough 6) lines over six lines of different field counts",
 		Assumptions: []string{
 			"user JavaScript that loops and caller-registered functions are outside the claim",
 			"a hang is a case that makes no progress for 45 s (normal cases take microseconds to milliseconds); memory blow-up beyond 6 GB is reported the same way",
@@ -720,6 +720,48 @@ func c03Run(c *core.Ctx) {
 					}
 					report(sig, detail+"\npattern: "+cs.Note, cs)
 				}
+			}
+		}
+	}
+	// ---- E3l: csv2 line sequences over lines of different field counts ----
+	// a header/footer record whose footer never comes keeps every line in the reader's buffer; the records
+	// after it (rows 1..3) then take the buffered lines from the front, lines of different field counts
+	{
+		lines := []string{"B,1,2,3,4", "a", "b,c", "E,9", "", "x,y,z"}
+		LL := 5
+		if !c.Quick() {
+			LL = 6
+		}
+		for rows := 1; rows <= 3; rows++ {
+			for _, first := range []string{`{"name":"A","header":"^B","footer":"^NEVER","min":0,"max":1,"columns":[{"name":"a1","index":2}]},`, `{"name":"A","header":"^B","footer":"^E","min":0,"columns":[{"name":"a1","index":2}]},`, ``} {
+				name := fmt.Sprintf("csv2/header-footer-then-rows%d", rows)
+				text := `{"parser_settings":{"version":"omni.2.1","file_format_type":"csv2"},"file_declaration":{"delimiter":",","records":[` + first +
+					fmt.Sprintf(`{"name":"R","rows":%d,"is_target":true,"columns":[{"name":"c1","index":1,"line_index":1},{"name":"c2","index":2,"line_index":%d}]}]},`, rows, rows) +
+					`"transform_declarations":{"FINAL_OUTPUT":{"object":{"c1":{"xpath":"c1"},"c2":{"xpath":"c2"}}}}}`
+				schema, err, _ := hx.NewSchema("s", text)
+				if err != nil {
+					c.HarnessError("csv2 line-sequence schema rejected: " + err.Error())
+					return
+				}
+				gen.Sequences(len(lines), LL, func(seq []int) bool {
+					idx++
+					if !c.Mine(idx) {
+						return true
+					}
+					var b strings.Builder
+					for _, l := range seq {
+						b.WriteString(lines[l] + "\n")
+					}
+					cs := c03Case{Family: "line-sequence:" + name, Schema: text, Input: []byte(b.String())}
+					c.Begin(func() interface{} { return cs })
+					sig, detail, n := c03Input(schema, name, b.String())
+					c.Eval(fmt.Sprintf("E3l|%s|%d|%d", name, len(first), n))
+					c.Count("csv2_line_sequences", 1)
+					if sig != "" {
+						report(sig, detail, cs)
+					}
+					return true
+				})
 			}
 		}
 	}
